@@ -303,7 +303,9 @@ fn run_case<T: Sc>(ctx: &Ctx, c: &Case, prop: &str, tt: &TTable, seed: u64) {
         }
     }
     let _ = kappa_scaled;
-    let tol_rel = 4096.0 * eps * kappa;
+    // K = 2^15: nalgebra's closed-form inverse of a 4 x 4 matrix was measured at 6250 eps kappa (XExpSin, spread weights,
+    // kappa 6.7e8: residual ||H^T H X - I|| = 7e-3 where a Cholesky inverse reaches 2e-8); see DESIGN 12.3
+    let tol_rel = 32768.0 * eps * kappa;
     let comparable = tol_rel <= 0.25;
     let ref_max = refla::maxabs(&cov_ref);
     if prop == "C13" {
@@ -362,6 +364,13 @@ fn run_case<T: Sc>(ctx: &Ctx, c: &Case, prop: &str, tt: &TTable, seed: u64) {
         if cov.iter().any(|v| !v.is_finite()) {
             ctx.with(|s| {
                 s.violate("C13", "covariance-not-finite", cj(), format!("fit_with_statistics returned Ok with a covariance matrix containing non-finite entries (diagonal {:?}, reduced chi2 {:e})", (0..dim).map(|a| cov[(a, a)]).collect::<Vec<_>>(), sigma2));
+            });
+        }
+        // census (see DESIGN 12.2): Ok results whose covariance has a negative variance although every entry is finite
+        if cov.iter().all(|v| v.is_finite()) && (0..dim).any(|a| cov[(a, a)] < 0.0) {
+            ctx.with(|s| {
+                s.inc("ok_with_negative_variance");
+                s.bucket("negative_variance", &format!("{} {} w={:?} n={} amp={:e} nv={} kappa={:.1e} diag={:?}", c.fam.name(), if c.f32_ { "f32" } else { "f64" }, c.w, c.n, c.amp, c.noise_variant, kappa, (0..dim).map(|a| cov[(a, a)]).collect::<Vec<_>>()));
             });
         }
         // accessors: exactly the diagonal segments (bitwise)
@@ -460,8 +469,15 @@ fn run_case<T: Sc>(ctx: &Ctx, c: &Case, prop: &str, tt: &TTable, seed: u64) {
                 // the band is a function of the covariance the library reports: no conditioning requirement, only the
                 // cancellation inside the quadratic form limits the comparison
                 let got = rad[i].d();
+                // finite and non-negative: judged wherever the reported covariance can be positive semi-definite at all, i.e.
+                // where H^T H is invertible in the working precision (for kappa * eps >~ 1 the sign of a variance, and of the
+                // quadratic form under the square root, is rounding noise - the same limit as for C13's diagonal)
                 if !(got.is_finite() && got >= 0.0) {
-                    ctx.with(|s| s.violate("C14", "band-not-finite-nonnegative", cj(), format!("radius[{}] = {:e} for p = {}", i, got, pv)));
+                    if comparable {
+                        ctx.with(|s| s.violate("C14", "band-not-finite-nonnegative", cj(), format!("radius[{}] = {:e} for p = {}", i, got, pv)));
+                    } else {
+                        ctx.with(|s| s.inc("band_nan_in_numerically_singular_fit"));
+                    }
                     break;
                 }
                 if !(rounding <= 1e-2) {
@@ -482,7 +498,7 @@ fn run_case<T: Sc>(ctx: &Ctx, c: &Case, prop: &str, tt: &TTable, seed: u64) {
             }
             if let Some(pr_) = &prev {
                 for i in 0..n {
-                    if !(rad[i] >= pr_[i]) {
+                    if !(rad[i] >= pr_[i]) && (comparable || (rad[i].d().is_finite() && pr_[i].d().is_finite())) {
                         ctx.with(|s| s.violate("C14", "band-not-monotone-in-p", cj(), format!("radius[{}] decreases from {:e} to {:e} when p increases to {}", i, pr_[i].d(), rad[i].d(), pv)));
                         break;
                     }
@@ -654,14 +670,14 @@ fn cov_cases(thorough: bool) -> Vec<Case> {
             }
         }
     }
-    for fam in [Family::Exp1Off, Family::Exp2Off, Family::Exp3, Family::GaussDecayOff, Family::OLeary] {
+    for fam in [Family::Exp1Off, Family::Exp2Off, Family::Exp3, Family::GaussDecayOff, Family::OLeary, Family::XExpSin] {
         // sample counts around powers of two (block-wise / vectorised accumulations have their corner cases there)
         for n in [fam.m() + fam.p() + 2, 24, 60, 64, 127, 128, 129, 256, 1024, 1100] {
             if (!thorough && n > 60 && !matches!(fam, Family::Exp1Off | Family::Exp2Off)) || (!thorough && n > 256 && !matches!(fam, Family::Exp2Off)) {
                 continue;
             }
             let mp = fam.m() + fam.p();
-            for w in [WKind::None, WKind::Ramp, WKind::InvSigma, WKind::Tiny, WKind::Huge, WKind::Spread, WKind::ZeroAt(2), WKind::NegAt(1), WKind::KeepOnly(mp), WKind::KeepOnly(mp + 1), WKind::KeepOnly(mp + 3)] {
+            for w in [WKind::None, WKind::Ramp, WKind::InvSigma, WKind::Tiny, WKind::Huge, WKind::Spread, WKind::ZeroAt(2), WKind::NegAt(1), WKind::KeepOnly(mp), WKind::KeepOnly(mp + 1), WKind::KeepOnly(mp + 3), WKind::Giant] {
                 for nv in [0u64, 1, 2] {
                     for amp in [1.0, 1e-5, 1e5, 4e9] {
                         for f32_ in [false, true] {
@@ -682,9 +698,9 @@ fn cov_cases(thorough: bool) -> Vec<Case> {
 
 fn band_cases(thorough: bool) -> Vec<Case> {
     let mut v = vec![];
-    let fams = [Family::Exp1Off, Family::Exp2Off, Family::GenProd { m: 2, p: 2, inc: default_inc(2, 2) }, Family::OLeary, Family::GaussDecayOff];
+    let fams = [Family::Exp1Off, Family::Exp2Off, Family::GenProd { m: 2, p: 2, inc: default_inc(2, 2) }, Family::XExpSin, Family::OLeary, Family::GaussDecayOff];
     for (fi, fam) in fams.iter().enumerate() {
-        if !thorough && fi >= 3 {
+        if !thorough && fi >= 4 {
             continue;
         }
         for nu in 1..=30usize {
@@ -709,7 +725,7 @@ fn band_cases(thorough: bool) -> Vec<Case> {
         }
         for f32_ in [false, true] {
             for nu in [100usize, 995, 1001, 1201, 5000] {
-                if nu > 100 && fi >= 2 {
+                if nu > 100 && fi >= 2 && fi != 3 {
                     continue;
                 }
                 v.push(Case { fam: fam.clone(), n: fam.m() + fam.p() + nu, prov: Prov::Hand, par: false, w: WKind::None, noise_variant: 1, level: 1e-3, amp: 1.0, solver: 0, f32_, eps: 0.0 });
